@@ -66,7 +66,8 @@ pub fn long_run(prop: &str, run: &LongRun, seed: u64, stride: usize, out: &mut J
                 }
                 let near_boundary = i < 3 || i + 3 >= run.seglen;
                 let _ = si;
-                if !(t % stride == 0 || near_boundary || t == total || t <= w + 2) {
+                // (every step of the warm-up for ordinary windows; for very large ones only around the point where the window fills)
+                if !(t % stride == 0 || near_boundary || t == total || (w <= 2000 && t <= w + 2) || (w > 2000 && t + 2 >= w && t <= w + 2)) {
                     continue;
                 }
                 // from-scratch evaluation of the harness's own window copy
@@ -207,6 +208,13 @@ pub fn run(ctx: &Ctx) -> CheckResult {
             }
         }
     }
+    // one window beyond 2^16 values (a counter or a product of counters in a 32-bit type): O(1)-per-step subjects
+    for cfg in subjects(70_000) {
+        if matches!(cfg.kind, Kind::Mad | Kind::Cci) {
+            continue;
+        }
+        runs.push(LongRun { cfg, regimes: vec![Regime::Walk, Regime::Saw], seglen: if th { 150_000 } else { 75_000 }, m: 0.7, force_bars: false });
+    }
     runs.sort_by_key(|r| std::cmp::Reverse(r.seglen * if matches!(r.cfg.kind, Kind::Mad | Kind::Cci) { r.cfg.p[0] } else { 1 }));
     res.extra.insert("long_runs".into(), json!(runs.len()));
     let chunks: Vec<&[LongRun]> = runs.chunks(if th { 2 } else { 4 }).collect();
@@ -245,7 +253,7 @@ pub fn run(ctx: &Ctx) -> CheckResult {
     }
     res.exhaustive = false;
     res.rule = "case = one long generated stream (period x band base x ordering of regime segments) fed to the real indicator without reset; at every 997th step, around every segment boundary and at the end the output is compared with a from-scratch double-double evaluation of the harness's own copy of the window at tolerance tau(t)*M (variances *M^2; CCI/MFI *c, gated); MIN/MAX exact; distinct by construction; non-trivial = applicable comparison".into();
-    res.bounds = format!("periods {periods:?} x band bases {bases:?} x all {}^{k} orderings of {{extremes, saw-tooth, LCG walk, plateau, spikes, stair (price rests every other step), short saw-tooth 1.1+(t mod 7)*123.456, exact triangle c,c+d,c,c-d}} (every 5th ordering for periods > 14 in thorough; O(n)-per-step subjects shortened), total length {total} per run; plus single-regime runs of 250k / 2M steps for periods 2 and 3; subjects SMA, WMA, SD, BB, MAD, CCI, MFI, MIN, MAX (every 4th ordering also through the bar path of the close-/low-/high-reading ones, periods <= 14)", set.len());
+    res.bounds = format!("periods {periods:?} x band bases {bases:?} x all {}^{k} orderings of {{extremes, saw-tooth, LCG walk, plateau, spikes, stair (price rests every other step), short saw-tooth 1.1+(t mod 7)*123.456, exact triangle c,c+d,c,c-d}} (every 5th ordering for periods > 14 in thorough; O(n)-per-step subjects shortened), total length {total} per run; plus single-regime runs of 250k / 2M steps for periods 2 and 3; period 70000 on 150k / 300k steps (O(1)-per-step subjects); subjects SMA, WMA, SD, BB, MAD, CCI, MFI, MIN, MAX (every 4th ordering also through the bar path of the close-/low-/high-reading ones, periods <= 14)", set.len());
     res.assumptions = vec![
         "systematically enumerated family of long streams, not all streams: regime orderings, periods and scales are exhaustive, regime contents follow fixed generators (the LCG walk is seeded by VERIF_SEED)".into(),
     ];
